@@ -9,9 +9,9 @@ CORR_MODULES = ["Xcdr.AssignCorr"]
 PREFIX = "C39"
 CASE_TYPE = "C39_case"
 HARNESS = "c39"
-KNOWN = {1: "C39-int-from-hashed-type", 2: "C39-nested-types-unchecked",
-         3: "C39-nested-appendable-dheader-ignored", 4: "C39-member-id-u16",
-         6: "C39-optional-mismatch", 7: "C39-typed-sample-none"}   # 5 (todo!()) repaired in /repo: abb552f
+KNOWN = {1: "C39-int-from-hashed-type", 2: "C39-nested-types-unchecked", 7: "C39-typed-sample-none"}
+# repaired in /repo (numbers not reused): 3 nested-appendable-dheader-ignored e71c8f0, 4 member-id-u16 1abc6cd,
+# 5 todo-type-identifier abb552f, 6 optional-mismatch 05c4a3c
 RULE = ("one `ev` case = a reader type T1 and a writer type T2 built at run time (DynamicTypeBuilderFactory), the "
         "real CompleteTypeObject::from + is_assignable_from_w_type_consistency decision for (T1 := T2) under a "
         "TypeConsistencyEnforcementQosPolicy, a value serialized by the real serializer with T2 and deserialized by the "
@@ -27,12 +27,12 @@ TRUSTED = ["theories/Xcdr/AssignModel.v is a hand transcription of TypeIdentifie
            "/repo into the harness binary via #[path] against the public dust_dds::xtypes API",
            "equivalence hashes and names are opaque tokens in the model (the code only compares them for equality)"]
 ASSUMPTIONS = ["covered family: top-level structures whose members are primitives and (w)strings, not optional, with "
-               "distinct member ids < 2^28 (mutable: < 2^16, else known finding C39-member-id-u16); final / appendable "
-               "types in XCDR1 and XCDR2, mutable types in XCDR2 (XCDR1 mutable: see C09-stage3-mutable-union)",
+               "distinct member ids < 2^28; final / appendable types in XCDR1 and XCDR2, mutable types in XCDR2 (XCDR1 "
+               "mutable: see C09-stage3-mutable-union)",
                "a member that is absent from the decoded DynamicData stands for its default value (the typed sample "
                "built from it is a separate matter: known finding C39-typed-sample-none)",
                "strings are shorter than 1 GiB; char8 values are one octet",
-               "NOT covered: unions, optional members, collections, nested evolution (known findings 1-3), "
+               "NOT covered: unions, optional members, collections, nested evolution (known findings 1-2), "
                "TryConstruct behaviours, string/sequence bounds at decode time, key-member type rules (TODO in the code)"]
 
 PRIMS = ["b", "y", "u8", "i8", "u16", "i16", "u32", "i32", "u64", "i64", "f32", "f64", "f128", "c8"]
@@ -397,7 +397,7 @@ def nested_witnesses():
     out.append(("ev", 2, "le", 3, S("F", 1, [(0, 0, 0, S("F", 2, [(0, 0, 0, P("i32"))]))]),
                 S("F", 1, [(0, 0, 0, S("F", 3, [(0, 0, 0, ("s", 0))]))]),
                 ("d", [(0, ("d", [(0, ("s", [104, 105]))]))])))
-    # 3: nested appendable struct extended by the writer / by the reader
+    # former finding 3 (nested appendable struct extended by the writer / by the reader; repaired by e71c8f0)
     in1 = S("A", 2, [(0, 0, 0, P("i32"))])
     in2 = S("A", 2, [(0, 0, 0, P("i32")), (1, 0, 1, P("i32"))])
     out.append(("ev", 2, "le", 3, S("F", 1, [(0, 0, 0, in1), (1, 0, 1, P("i32"))]),
@@ -406,7 +406,7 @@ def nested_witnesses():
     out.append(("ev", 2, "le", 3, S("F", 1, [(0, 0, 0, in2), (1, 0, 1, P("i32"))]),
                 S("F", 1, [(0, 0, 0, in1), (1, 0, 1, P("i32"))]),
                 ("d", [(0, ("d", [(0, ("p", "i32", 5))])), (1, ("p", "i32", 77))])))
-    # 4: member id compared as u16
+    # former finding 4 (member id compared as u16; repaired by 1abc6cd)
     out.append(("ev", 2, "le", 3, S("M", 1, [(1, 0, 1, P("i32")), (65537, 0, 2, P("i32"))]),
                 S("M", 1, [(65537, 0, 2, P("i32"))]), ("d", [(65537, ("p", "i32", 9))])))
     return out
@@ -464,6 +464,11 @@ def corpus():
     out.append(("ev", 2, "le", 3, a2, a1, ("d", [(0, ("p", "i32", 5))])))
     out.append(("ev", 2, "le", 3, S("A", 1, [(0, 0, 0, P("u8")), (1, 0, 1, P("u8")), (2, 0, 2, P("u16"))]),
                 S("A", 1, [(0, 0, 0, P("u8"))]), ("d", [(0, ("p", "u8", 5))])))
+    # former finding 6 (optional on one side only, repaired by 05c4a3c): regression, now `A 0`
+    out.append(("ev", 2, "le", 3, S("A", 1, [(0, 1, 0, P("i32"))]), S("A", 1, [(0, 0, 0, P("i32"))]),
+                ("d", [(0, ("p", "i32", 2))])))
+    out.append(("ev", 2, "le", 3, S("F", 1, [(0, 0, 0, P("i32"))]), S("F", 1, [(0, 1, 0, P("i32"))]),
+                ("d", [(0, ("p", "i32", 2))])))
     # mutable: add / remove / reorder
     out.append(("ev", 2, "le", 3,
                 S("M", 1, [(5, 0, 5, P("i32")), (1, 0, 1, P("u8")), (9, 0, 9, ("s", 0))]),
@@ -496,7 +501,7 @@ def gen(r, tier):
         k = r.random()
         if k < 0.74:
             ext = r.choice(["A", "A", "M", "M", "F"])
-            t = gen_struct(r, ext, big_ids=(r.random() < 0.08))
+            t = gen_struct(r, ext, big_ids=(r.random() < 0.3))
             q = r.random()
             if q < 0.08:
                 cases.append(ev_case(r, t, t))
@@ -901,10 +906,10 @@ MANIFEST = {
              "evolution, typed samples built from the decoded DynamicData."),
     "note": ("Trusted: Coq kernel + vm_compute; hand models AssignModel.v and XcdrModel.v (checked against the code on "
              "every run); harness and comparator. Known findings (each with a Coq witness and a patch proposal): "
-             "integers assignable from any hashed type, hashed member types never compared, nested appendable DHEADER "
-             "ignored, member ids compared as u16, optional mismatch accepted for FINAL/APPENDABLE, typed sample None "
-             "for an extended reader type. The todo!() on TkNone/map/SCC/extended type identifiers is repaired "
-             "(abb552f): the decision is proved total. prevent_type_widening, force_type_validation and "
+             "integers assignable from any hashed type, hashed member types never compared, typed sample None for an "
+             "extended reader type. Repaired in /repo and followed by the model: todo!() on unsupported type "
+             "identifiers (abb552f, the decision is proved total), nested appendable DHEADER ignored (e71c8f0), member "
+             "ids compared as u16 (1abc6cd), optional mismatch accepted for FINAL/APPENDABLE (05c4a3c). prevent_type_widening, force_type_validation and "
              "TypeConsistencyKind are never read by the code (modelled as such). The integer-widening candidate D35 of "
              "DESIGN.md is not present in this tree (proved: long := long long is rejected)."),
     "technique": "Coq proof (induction over member lists and over the XCDR2 parameter list; boolean characterisation "
